@@ -50,16 +50,39 @@ mod proofs {
     // response that contains a pseudo-header field that appears in a field block after a regular field line MUST be
     // treated as malformed."  A field block may arrive as HEADERS + CONTINUATION fragments decoded by separate `load`
     // calls on the same HeaderBlock, so "a regular field was already seen" must survive from one call to the next.
-    // Pre-state: an earlier fragment delivered one regular field.  Input: a one-octet fragment, the indexed
-    // representation of static-table entry `idx` (a pseudo-header field).  Must be MalformedMessage, and the pseudo field
-    // must not be recorded.
-    fn hb_load_pseudo_after_regular_case(idx: u8) {
+    //
+    // The HPACK decoding itself (hpack::Decoder::decode; Kani does not finish symbolic execution of it even for one octet)
+    // is replaced by a stub that hands the REAL closure of `load` a fixed short list of decoded fields; everything `load`
+    // does with them — the `reg` / `malformed` bookkeeping, the macros set_pseudo!/check_size!, the size accounting — is
+    // the real code.  Bounded: the listed field sequences.
+    fn stub_decode_emits_method<F>(_d: &mut hpack::Decoder, _src: &mut Cursor<&mut BytesMut>, mut f: F) -> Result<(), hpack::DecoderError>
+    where
+        F: FnMut(hpack::Header) -> ControlFlow<()>,
+    {
+        let _ = f(hpack::Header::Method(Method::GET));
+        Ok(())
+    }
+
+    fn stub_decode_emits_field_then_status<F>(_d: &mut hpack::Decoder, _src: &mut Cursor<&mut BytesMut>, mut f: F) -> Result<(), hpack::DecoderError>
+    where
+        F: FnMut(hpack::Header) -> ControlFlow<()>,
+    {
+        let _ = f(hpack::Header::Field { name: header::ACCEPT, value: HeaderValue::from_static("*/*") });
+        let _ = f(hpack::Header::Status(StatusCode::OK));
+        Ok(())
+    }
+
+    // Pre-state: an earlier fragment delivered one regular field.  This fragment: `:method GET`.
+    // @harness id=hb_load_pseudo_after_regular_field_of_earlier_fragment props=C13 kind=bounded bound=one_regular_field_earlier,_this_fragment=[:method] tier=quick timeout=400 fn=HeaderBlock::load
+    #[kani::proof]
+    #[kani::unwind(12)]
+    #[kani::stub(hpack::Decoder::decode, stub_decode_emits_method)]
+    fn hb_load_pseudo_after_regular_field_of_earlier_fragment() {
         let mut fields = HeaderMap::new();
         fields.insert(header::ACCEPT, HeaderValue::from_static("*/*"));
         let mut hb = HeaderBlock { field_size: calculate_headermap_size(&fields), fields, is_over_size: false, pseudo: Pseudo::default() };
         let mut dec = hpack::Decoder::new(4096);
-        let mut src = BytesMut::with_capacity(8);
-        src.extend_from_slice(&[0x80 | idx]);
+        let mut src = BytesMut::new();
         let r = hb.load(&mut src, 16 << 10, &mut dec);
         assert!(matches!(r, Err(Error::MalformedMessage)), "headers.load.pseudo_header_after_regular_field_of_an_earlier_fragment_is_malformed");
         assert!(hb.pseudo == Pseudo::default(), "headers.load.late_pseudo_header_is_not_recorded");
@@ -68,32 +91,35 @@ mod proofs {
         std::mem::forget(r);
         std::mem::forget(hb);
         std::mem::forget(dec);
-        std::mem::forget(src);
     }
 
-    // @harness id=hb_load_pseudo_after_regular_method props=C13 kind=bounded bound=one-octet_fragment,static_entry_2(:method_GET) tier=thorough timeout=2400 fn=HeaderBlock::load
+    // Same rule inside ONE fragment: regular field, then `:status 200`.
+    // @harness id=hb_load_pseudo_after_regular_field_same_fragment props=C13 kind=bounded bound=fragment=[accept,:status] tier=thorough timeout=2400 fn=HeaderBlock::load
     #[kani::proof]
-    #[kani::unwind(10)]
-    fn hb_load_pseudo_after_regular_method() {
-        hb_load_pseudo_after_regular_case(2);
+    #[kani::unwind(12)]
+    #[kani::stub(hpack::Decoder::decode, stub_decode_emits_field_then_status)]
+    fn hb_load_pseudo_after_regular_field_same_fragment() {
+        let mut hb = HeaderBlock { field_size: 0, fields: HeaderMap::new(), is_over_size: false, pseudo: Pseudo::default() };
+        let mut dec = hpack::Decoder::new(4096);
+        let mut src = BytesMut::new();
+        let r = hb.load(&mut src, 16 << 10, &mut dec);
+        assert!(matches!(r, Err(Error::MalformedMessage)), "headers.load.pseudo_header_after_regular_field_is_malformed");
+        assert!(hb.pseudo.status.is_none(), "headers.load.late_status_is_not_recorded");
+        kani::cover!(true, "cover.reached");
+        std::mem::forget(r);
+        std::mem::forget(hb);
+        std::mem::forget(dec);
     }
 
-    // @harness id=hb_load_pseudo_after_regular_status props=C13 kind=bounded bound=one-octet_fragment,static_entry_8(:status_200) tier=thorough timeout=2400 fn=HeaderBlock::load
+    // Twin (non-vacuity): the same pseudo-header as the FIRST field of a block is accepted and recorded.
+    // @harness id=hb_load_pseudo_first props=C13 kind=bounded bound=fragment=[:method] tier=quick timeout=400 fn=HeaderBlock::load
     #[kani::proof]
-    #[kani::unwind(10)]
-    fn hb_load_pseudo_after_regular_status() {
-        hb_load_pseudo_after_regular_case(8);
-    }
-
-    // Twin (non-vacuity of the case above): the same octet as the FIRST field of a block is accepted and recorded.
-    // @harness id=hb_load_pseudo_first props=C13 kind=bounded bound=one-octet_block,static_entry_2 tier=thorough timeout=2400 fn=HeaderBlock::load
-    #[kani::proof]
-    #[kani::unwind(10)]
+    #[kani::unwind(12)]
+    #[kani::stub(hpack::Decoder::decode, stub_decode_emits_method)]
     fn hb_load_pseudo_first() {
         let mut hb = HeaderBlock { field_size: 0, fields: HeaderMap::new(), is_over_size: false, pseudo: Pseudo::default() };
         let mut dec = hpack::Decoder::new(4096);
-        let mut src = BytesMut::with_capacity(8);
-        src.extend_from_slice(&[0x82]);
+        let mut src = BytesMut::new();
         let r = hb.load(&mut src, 16 << 10, &mut dec);
         assert!(r.is_ok(), "headers.load.pseudo_header_first_is_accepted");
         assert!(hb.pseudo.method == Some(Method::GET) && hb.fields.is_empty(), "headers.load.pseudo_header_first_is_recorded");
@@ -101,49 +127,6 @@ mod proofs {
         std::mem::forget(r);
         std::mem::forget(hb);
         std::mem::forget(dec);
-        std::mem::forget(src);
-    }
-
-
-    // Every octet string of length 0..=21.  The real loop runs at most 19 times (the length test comes
-    // first and, for longer inputs, returns before any octet is read — lengths 20 and 21 exercise that),
-    // so the bound below is an operand-width bound: complete.  (kissat: 3x faster than cadical here.)
-    // h2's documented limit: at most 19 digits (10^19 - 1 < 2^64), i.e. the 20-digit values
-    // 10^19 ..= u64::MAX are refused although representable — a refusal, never a wrong value.
-    // @harness id=frame_parse_u64 props=C13 kind=complete tier=quick solver=kissat fn=parse_u64
-    #[kani::proof]
-    #[kani::unwind(23)]
-    fn frame_parse_u64() {
-        let bytes: [u8; 21] = kani::any();
-        let n: usize = kani::any();
-        kani::assume(n <= 21);
-        let r = parse_u64(&bytes[..n]);
-        let all_digits = pu64_all_digits(&bytes, n);
-        let value = if all_digits && n <= 19 { pu64_decimal(&bytes, n) } else { 0 };
-        let got = match r {
-            Ok(v) => v,
-            Err(_) => 0,
-        };
-        // never accepts a non-number, never a wrong number, never wraps
-        assert!(r.is_err() || all_digits, "frame.parse_u64.ok_only_if_all_octets_are_digits");
-        assert!(r.is_err() || got == value, "frame.parse_u64.ok_value_is_the_decimal_value");
-        assert!(got <= 9_999_999_999_999_999_999, "frame.parse_u64.ok_value_below_10_pow_19");
-        assert!(r.is_err() || n <= 19, "frame.parse_u64.ok_only_up_to_19_digits");
-        // refuses nothing else (for non-empty input; the empty string: frame_parse_u64_empty)
-        assert!(!(1 <= n && n <= 19 && all_digits) || r.is_ok(), "frame.parse_u64.accepts_every_1_to_19_digit_number");
-        kani::cover!(r == Ok(9_999_999_999_999_999_999), "cover.largest_19_digit_value");
-        kani::cover!(r.is_err() && n == 20 && all_digits, "cover.twenty_digits_refused");
-    }
-
-    // RFC 9110 §8.6: `Content-Length = 1*DIGIT` — an empty field value is not a number.  A field line
-    // `content-length:` (empty value) is a legal HPACK field and reaches parse_u64 from
-    // Recv::recv_headers and PushPromise::validate_request.
-    // @harness id=frame_parse_u64_empty props=C13 kind=complete tier=quick fn=parse_u64
-    #[kani::proof]
-    fn frame_parse_u64_empty() {
-        let r = parse_u64(b"");
-        assert!(r.is_err(), "frame.parse_u64.empty_string_is_not_a_number");
-        kani::cover!(true, "cover.reached");
     }
 
     // ---- Part 3: HEADERS / PUSH_PROMISE / CONTINUATION encoding against the frame-size budget (C12, C04).
